@@ -468,7 +468,7 @@ ExploreClauses(W, S, ev) ==
                              \A j \in 1..k : ev.paths[j] \in SeqSet(ev.uniform) =>
                                 LET F == feas(j) IN
                                 (ev.paths[j] \in DOMAIN ev.bounds
-                                 /\ {m \in (IF Len(W.scalars[ev.paths[j]].enum) > 0         \* an enum field ranges over its enumerators
+                                 /\ {m \in (IF ev.paths[j] \in DOMAIN W.scalars /\ Len(W.scalars[ev.paths[j]].enum) > 0   \* an enum field ranges over its enumerators
                                             THEN {ToNat(W.scalars[ev.paths[j]].enum[i]) : i \in 1..Len(W.scalars[ev.paths[j]].enum)}
                                             ELSE 0..(2 ^ TypeOfPath(W, ev.paths[j]).w - 1)) :
                                         InRanges(IntOf(W, ev.paths[j], NatBits(m, TypeOfPath(W, ev.paths[j]).w)), ev.bounds[ev.paths[j]])} = F)
